@@ -203,7 +203,14 @@ inline void crash_handler(int sig, siginfo_t*, void*) {
 // code is the runtime's own (the frames right below the signal frame belong to lib{asan,ubsan,tsan}), the budget is granted again,
 // at most 6 times; a call that really hangs is still reported, a little later.
 inline timer_t g_budget_timer{}; inline bool g_budget_ok = false; inline double g_budget_sec = 0; inline int g_budget_extensions = 0; inline long g_budget_extensions_total = 0;
+inline double g_budget_wall0 = 0; inline long g_budget_spurious = 0;
+inline double budget_wall_now() { struct timespec ts; clock_gettime(CLOCK_MONOTONIC, &ts); return (double)ts.tv_sec + ts.tv_nsec * 1e-9; }
 inline void xcpu_handler(int sig, siginfo_t* si, void* uc) {
+    // one thread cannot have used more CPU time than wall-clock time has passed: a budget signal that arrives before the budget has passed on the
+    // wall clock is not a hang of the code under test (seen under a load of 60 in a VM: 10 s budgets "used up" by tables that take milliseconds);
+    // the timer is set again for what is left
+    if (g_budget_ok && g_budget_wall0 > 0) { double wall = budget_wall_now() - g_budget_wall0; if (wall < g_budget_sec * 0.95) { g_budget_spurious++; double left = g_budget_sec - wall; if (left < 0.1) left = 0.1;
+        struct itimerspec its{}; its.it_value.tv_sec = (time_t)left; its.it_value.tv_nsec = (long)((left - (time_t)left) * 1e9); timer_settime(g_budget_timer, 0, &its, nullptr); return; } }
     if (g_budget_ok && g_budget_extensions < 6) {
         void* fr[24]; int n = backtrace(fr, 24); bool inRuntime = false;
         // frames 0-2 are this handler, (the sanitizer's signal wrapper,) the signal trampoline; look at the interrupted frames
@@ -239,7 +246,7 @@ struct CpuBudget {
     }
     void arm(double sec) {
         if (!ok) return;
-        g_budget_sec = sec; g_budget_extensions = 0;
+        g_budget_sec = sec; g_budget_extensions = 0; g_budget_wall0 = budget_wall_now();
         struct itimerspec its{};
         its.it_value.tv_sec = (time_t)sec;
         its.it_value.tv_nsec = (long)((sec - (time_t)sec) * 1e9);
